@@ -128,6 +128,17 @@ def transformEnum (e : Enum) (base : BaseType) (w : Nat) : LEnum :=
     only produce well-formed paths; an empty string is the one malformed value they use. -/
 def validTypePath (s : String) : Bool := !s.isEmpty
 
+/-- Conversion-method selection (lir_transform.rs:450-469): `try` always wins; the unchecked
+    conversion only when an enum generated under that name was analysed infallible for at least
+    this field's width; else `Into`. -/
+def selectConv (enums : List Enum) (w : Nat) (fc : FieldConversion) : ConvMethod :=
+  if fc.useTry then .tryInto fc.typeName
+  else match enums.find? (fun e => e.name == fc.typeName) with
+    | some e => (match e.style with
+      | some (.infallible bitSize) => if w ≤ bitSize then .unsafeInto fc.typeName else .into fc.typeName
+      | _ => .into fc.typeName)
+    | none => .into fc.typeName
+
 def transformField (enums : List Enum) (f : Field) : M LField := do
   let w := f.width
   let (signed, bits, conv) ← match f.base, f.conv with
@@ -136,14 +147,7 @@ def transformField (enums : List Enum) (f : Field) : M LField := do
     | b, none => pure (b == .int, carrierBitsOf w, ConvMethod.none)
     | b, some fc => do
       if !validTypePath fc.typeName then throw (.panic "invalid_type_path")
-      let m : ConvMethod :=
-        if fc.useTry then .tryInto fc.typeName
-        else match enums.find? (fun e => e.name == fc.typeName) with
-          | some e => (match e.style with
-            | some (.infallible bitSize) => if w ≤ bitSize then .unsafeInto fc.typeName else .into fc.typeName
-            | _ => .into fc.typeName)
-          | none => .into fc.typeName
-      pure (b == .int, carrierBitsOf w, m)
+      pure (b == .int, carrierBitsOf w, selectConv enums w fc)
   pure { cfg := f.cfg, name := f.name, start := f.start, stop := f.stop, signed := signed,
          carrierBits := bits, conv := conv, access := f.access }
 
